@@ -657,7 +657,7 @@ def tapped_file_req(spec, records):
 def run_framing_stream(prop, tier, chk, model, bres):
     from harness.common import rng
     R = rng(prop, 'whole-file')
-    n = 60 if tier == 'quick' else 600
+    n = 200 if tier == 'quick' else 1500
     tmp = tempfile.mkdtemp(prefix='verif_ff_')
     try:
         reqs, cases = [], []
